@@ -59,6 +59,10 @@ class CtxFail(Exception):
     pass
 
 
+class CtxFailBase(BaseException):
+    """a context failing with something that is not an Exception subclass"""
+
+
 _OPTION_NAMES = [
     "DUMP_PRE_ERROR_STATE", "DUMP_EXCEPTIONS", "DUMP_SCHEDULE_TASK", "DUMP_CONTINUE_TASK", "DUMP_SCHEDULE_BATCH",
     "DUMP_FLUSH_BATCH", "DUMP_DEPENDENCIES", "DUMP_COMPUTED", "DUMP_NEW_TASKS", "DUMP_YIELD_RESULTS",
@@ -136,11 +140,12 @@ class RecCtx(AsyncContext):
 class FailCtx(AsyncContext):
     """A context whose n-th resume / pause raises (C08's fault set)."""
 
-    def __init__(self, env, cid, resume_at, pause_at):
+    def __init__(self, env, cid, resume_at, pause_at, base=False):
         self.env = env
         self.cid = cid
         self.resume_at = resume_at
         self.pause_at = pause_at
+        self.exc_cls = CtxFailBase if base else CtxFail
         self.nr = 0
         self.np = 0
 
@@ -148,13 +153,13 @@ class FailCtx(AsyncContext):
         self.nr += 1
         self.env.log.append(["r", self.cid])
         if self.resume_at is not None and self.nr == self.resume_at:
-            raise CtxFail(("resume", self.cid))
+            raise self.exc_cls(("resume", self.cid))
 
     def pause(self):
         self.np += 1
         self.env.log.append(["p", self.cid])
         if self.pause_at is not None and self.np == self.pause_at:
-            raise CtxFail(("pause", self.cid))
+            raise self.exc_cls(("pause", self.cid))
 
 
 class NA(NonAsyncContext):
@@ -173,13 +178,7 @@ class HBatch(BatchBase):
 
     def _try_switch_active_batch(self):
         if self.env.cur.get(self.kind) is self:
-            self.env.cur[self.kind] = HBatch(self.env, self.kind)
-
-    def get_priority(self):
-        p = self.env.prio.get(self.kind)
-        if p is None:
-            return BatchBase.get_priority(self)
-        return (p[self.no % len(p)], 0)
+            self.env.cur[self.kind] = self.env.new_batch(self.kind)
 
     def flush(self):
         BatchBase.flush(self)
@@ -238,6 +237,21 @@ class HBatch(BatchBase):
                 i.set_error(env.exc(("item", i.uid)))
 
 
+class HBatchPrio(HBatch):
+    """kinds with a generated priority table override get_priority (kinds without one keep asynq's default)"""
+
+    def get_priority(self):
+        p = self.env.prio[self.kind]
+        return (p[self.no % len(p)], 0)
+
+
+def prio_of(batch):
+    """the priority the scheduler should see (for a batch that does not override it: the documented default)"""
+    if isinstance(batch, HBatchPrio):
+        return batch.get_priority()
+    return (0, len(batch.items))
+
+
 class HItem(BatchItemBase):
     def __init__(self, env, kind, arg, outcome, uid):
         BatchItemBase.__init__(self, env.batch(kind))
@@ -280,6 +294,7 @@ class Env(object):
         self.run_stack = []    # tids whose body code is executing, innermost last
         self.waits = []        # recs being waited for synchronously, innermost last
         self.start_seq = []
+        self.start_pos = {}
         self.svs = [AsyncScopedValue(["init", i]) for i in range(prog.get("nsv", 2))]
         self.objs = [Holder(i) for i in range(prog.get("nsv", 2))]
         self.direct = []       # batches being flushed / cancelled out of band (not by the scheduler), innermost last
@@ -320,10 +335,13 @@ class Env(object):
         if len(self.viol) < 50:
             self.viol.append((clause, msg))
 
+    def new_batch(self, kind):
+        return (HBatchPrio if self.prio.get(kind) is not None else HBatch)(self, kind)
+
     def batch(self, kind):
         b = self.cur.get(kind)
         if b is None:
-            b = self.cur[kind] = HBatch(self, kind)
+            b = self.cur[kind] = self.new_batch(kind)
         return b
 
     def exc(self, key):
@@ -507,7 +525,7 @@ def make_ctx(env, rec, c):
     if tag == "na":
         return NA()
     if tag == "fail":
-        return FailCtx(env, c[1], c[2], c[3])
+        return FailCtx(env, c[1], c[2], c[3], bool(c[4]) if len(c) > 4 else False)
     raise AssertionError(c)
 
 
@@ -531,12 +549,12 @@ def exc_key(e):
         return e.key
     if isinstance(e, HardFlush):
         return ["hard"] + list(e.args[0])
-    if isinstance(e, CtxFail):
+    if isinstance(e, (CtxFail, CtxFailBase)):
         return ["ctxfail"] + list(e.args[0])
     return type(e).__name__
 
 
-CATCHABLE = (HExc, HBase, AssertionError, TypeError, HardFlush, CtxFail)
+CATCHABLE = (HExc, HBase, AssertionError, TypeError, HardFlush, CtxFail, CtxFailBase)
 
 
 def exec_block(env, rec, me, body):
@@ -726,11 +744,11 @@ def _after_resume(env, rec, futs, fresh):
     if rec.resumes != rec.yields:
         env.v("C03.once", "task %r: %d resumes for %d yields" % (tid, rec.resumes, rec.yields))
     # tasks first scheduled by this yield, in list/tuple positions, start in the order written
-    started = [env.start_seq.index(x) for x in fresh if x in env.start_seq]
+    started = [env.start_pos[x] for x in fresh if x in env.start_pos]
     if len(started) != len(fresh):
         env.v("C03.uncomputed", "task %r resumed although a task it yielded never started" % (tid,))
     elif started != sorted(started):
-        env.v("C03.start_order", "tasks yielded together by %r started out of order: %r" % (tid, [env.start_seq.index(x) for x in fresh]))
+        env.v("C03.start_order", "tasks yielded together by %r started out of order: %r" % (tid, [env.start_pos[x] for x in fresh][:20]))
 
 
 @A()
@@ -747,6 +765,7 @@ def run_task(env, t):
     if not rec.yielded:
         env.v("C03.orphan", "task %r was never yielded or waited on but started" % (tid,))
     rec.started = True
+    env.start_pos[tid] = len(env.start_seq)
     env.start_seq.append(tid)
     env.log.append(["start", tid])
     enter_body(env, rec, me)
@@ -868,9 +887,9 @@ def run_program(prog, check_c04=False, check_c06=False, reset=True, options=None
             if (batch.kind, batch.no) not in cands:
                 env.v("C05.priority", "flushed batch %s#%d holds no item awaited by a blocked task" % (batch.kind, batch.no))
             else:
-                best = max(b.get_priority() for b in cands.values())
-                if batch.get_priority() != best:
-                    env.v("C05.priority", "flushed %s#%d with priority %r while a pending batch has %r" % (batch.kind, batch.no, batch.get_priority(), best))
+                best = max(prio_of(b) for b in cands.values())
+                if prio_of(batch) != best:
+                    env.v("C05.priority", "flushed %s#%d with priority %r while a pending batch has %r" % (batch.kind, batch.no, prio_of(batch), best))
                 env.ncands = max(env.ncands, len(set(k for k, n in cands)))
 
     def after(batch):
